@@ -19,14 +19,15 @@ from engine import slicer, pipeline
 
 REPO = os.environ.get('VERIF_REPO', '/repo')
 BUILD = os.path.join(VERIF, 'build')
-UNITS = ['core']
+UNITS = ['core', 'pred']
 NCPU = int(os.environ.get('VERIF_JOBS', '16'))
 
 def load_unit(name):
     return importlib.import_module('units.' + name)
 
-def gen_unit(name, gendir):
+def gen_unit(name, gendir, _top=True):
     mod = load_unit(name)
+    for dep in getattr(mod, 'DEPS', []): gen_unit(dep, gendir, False)
     t, f, recs = slicer.generate(REPO, mod.UNIT)
     t = re.sub(r'\n[ \t]+\n', '\n\n', t); f = re.sub(r'(\n[ \t]*){3,}', '\n\n', f)
     os.makedirs(gendir, exist_ok=True)
